@@ -515,10 +515,10 @@ func (b *bigInt) String() string {
 // ------------------------------------------------------------------ python subprocess
 
 type pyGen struct {
-	cmd *exec.Cmd
-	in  *bufio.Writer
-	inC io.WriteCloser
-	out *bufio.Reader
+	cmd  *exec.Cmd
+	in   *bufio.Writer
+	inC  io.WriteCloser
+	out  *bufio.Reader
 	dump *os.File // C13_DUMP=<file>: keep the descriptions sent to python (debugging aid)
 }
 
@@ -935,6 +935,9 @@ func judge(c connD, o outcome, e expect, malKind string) []finding {
 				continue
 			}
 		}
+		if j >= len(P) && o.err != nil && !e.wantErr {
+			break // the call ended early with an error (reported above): the rest is its consequence
+		}
 		if i < len(E) && (j >= len(P) || !idsLeft(lineID(E[i].line), j)) {
 			f, it := itemOf(c, E[i].fi, E[i].ii)
 			dropped++
@@ -948,7 +951,7 @@ func judge(c connD, o outcome, e expect, malKind string) []finding {
 			j++
 		}
 	}
-	if o.invalid != e.invalid && !(dropped > 0 && o.invalid == e.invalid+dropped) {
+	if o.invalid != e.invalid && !(dropped > 0 && o.invalid == e.invalid+dropped) && !(o.err != nil && !e.wantErr) {
 		dir := "over"
 		if o.invalid < e.invalid {
 			dir = "under"
@@ -1036,6 +1039,17 @@ func segmentations(r *mon.Rng, n int, nrand int, small int) [][]int {
 		for i := 1; i < n; i++ {
 			segs = append(segs, []int{i}) // every single cut
 		}
+	}
+	if n > 1500 {
+		// a window of single-byte reads somewhere in a large stream (so that "remaining bytes of the payload"
+		// takes every value around the 4096-byte chunk size), whole reads elsewhere
+		w := r.Range(1500, 9000)
+		from := r.Intn(max(1, n-w))
+		var cuts []int
+		for p := from; p < from+w && p < n; p++ {
+			cuts = append(cuts, p)
+		}
+		segs = append(segs, cuts)
 	}
 	for k := 0; k < nrand; k++ {
 		var cuts []int
@@ -1466,10 +1480,10 @@ func main() {
 	st := &stats{m: map[string]int{}}
 	seed := mon.Seed()
 
-	nMain := mon.N(400, 28000)
-	nBytes := mon.N(60, 3000)
-	nPy2 := mon.N(140, 9000)
-	nMal := mon.N(80, 5000)
+	nMain := mon.N(400, 14000)
+	nBytes := mon.N(60, 1500)
+	nPy2 := mon.N(140, 4500)
+	nMal := mon.N(80, 2500)
 
 	type plan struct {
 		workload string
